@@ -131,6 +131,10 @@ class C09(Prop):
             if scn.get("labels"):
                 rec["labels"] = scn["labels"]
             rec["layout"] = circ.layout_of(c, orig, gates)
+            if variant == "composed":
+                rec["h"] = len(items) // 2
+            if not scn.get("labels") and n <= 12:
+                rec.update(circ.describe(be, c, items))
             gens, lst, st = probes_for(n)
             for kind, ins in (("map", gens), ("list", lst), ("state", st)):
                 pr = {"kind": kind, "ins": ins}
